@@ -13,6 +13,7 @@ go build ./... > /tmp/wt/confirm.$$.build.log 2>&1; rc_build=$?
 go test -vet=off -count=1 -run "$run" "./$pkg" > /tmp/wt/confirm.$$.with.log 2>&1; rc_with=$?
 rm -f "$pkg/zz_seed_demo_test.go"
 go test -vet=off -count=1 "./$pkg" > /tmp/wt/confirm.$$.pkg.log 2>&1; rc_pkg=$?
+if [ $rc_pkg -ne 0 ]; then grep -E "^(--- FAIL|FAIL|panic)" /tmp/wt/confirm.$$.pkg.log | head -5; echo "(package tests failed once: re-running, timing-sensitive tests flake under load)"; go test -vet=off -count=1 "./$pkg" > /tmp/wt/confirm.$$.pkg.log 2>&1; rc_pkg=$?; fi
 echo "build_with_patch=$rc_build demo_without_patch=$rc_without (want 0) demo_with_patch=$rc_with (want !=0) pkg_tests_with_patch=$rc_pkg (want 0)"
 tail -3 /tmp/wt/confirm.$$.with.log
 cd /; git -C /repo worktree remove --force $wt; rm -f /tmp/wt/confirm.$$.*
